@@ -7,7 +7,20 @@ use json_syntax::object::{Entry, Key};
 use json_syntax::{Object, Value};
 use std::collections::{BTreeSet, VecDeque};
 
+/// Key names of the second universe (a case line whose key count is 11): names whose order
+/// differs between code points (= UTF-8 bytes) and UTF-16 code units, the empty name, prefixes.
+pub const EXOTIC: [&str; 11] =
+    ["\u{ffff}", "\u{10000}", "\u{e000}a", "\u{10ffff}", "", "\u{e9}", "k", "k0", "\u{d7ff}\u{10000}", "\u{d7ff}\u{e000}", "\u{10000}\u{e000}"];
+thread_local! {
+    pub static EXOTIC_KEYS: std::cell::Cell<bool> = std::cell::Cell::new(false);
+}
+pub fn set_universe(nkeys: &str) {
+    EXOTIC_KEYS.with(|f| f.set(nkeys == "11"));
+}
 pub fn key(i: usize) -> Key {
+    if EXOTIC_KEYS.with(|f| f.get()) && i < EXOTIC.len() {
+        return EXOTIC[i].into();
+    }
     format!("k{:02}", i).as_str().into()
 }
 pub fn val(v: usize) -> Value {
@@ -20,6 +33,11 @@ fn vstr(v: &Value) -> String {
     }
 }
 fn kidx(k: &str) -> String {
+    if EXOTIC_KEYS.with(|f| f.get()) {
+        if let Some(i) = EXOTIC.iter().position(|x| *x == k) {
+            return i.to_string();
+        }
+    }
     k.trim_start_matches('k').parse::<usize>().map(|i| i.to_string()).unwrap_or_else(|_| format!("?{k}"))
 }
 fn estr(e: &Entry) -> String {
@@ -102,6 +120,39 @@ pub fn apply(obj: &mut Object, op: &str) -> String {
         "sort" => {
             obj.sort();
             "ok".into()
+        }
+        "canon" => {
+            obj.canonicalize();
+            "ok".into()
+        }
+        // an extension whose source panics after k entries, the caller recovering: whatever part of
+        // the extension took place, entries and key index must agree; the appended part is then
+        // taken off again, so that the history continues from the state before the extension
+        "extpanic" => {
+            let pairs = parse_pairs(p[1]);
+            let k = n(2);
+            let before: Vec<Entry> = obj.iter().cloned().collect();
+            let src = pairs.clone().into_iter().enumerate().map(move |(i, e)| {
+                if i == k {
+                    panic!("source of the extension fails");
+                }
+                e
+            });
+            let r = std::panic::catch_unwind(std::panic::AssertUnwindSafe(|| obj.extend(src)));
+            let now: Vec<Entry> = obj.iter().cloned().collect();
+            let grown = now.len() >= before.len() && now[..before.len()] == before[..];
+            let added = now.len().saturating_sub(before.len());
+            let prefix = grown && added <= k.min(pairs.len()) && now[before.len()..] == pairs[..added];
+            let consistent = index_consistent(obj);
+            for _ in 0..added {
+                obj.remove_at(obj.len() - 1);
+            }
+            match (r.is_err() == (k < pairs.len()), prefix, consistent) {
+                (true, true, true) => "ok".into(),
+                (false, _, _) => "PANIC-NOT-PROPAGATED".into(),
+                (_, false, _) => "ENTRIES-NOT-A-PREFIX-OF-THE-EXTENSION".into(),
+                _ => "INDEX-STALE-AFTER-FAILED-EXTENSION".into(),
+            }
         }
         "goi" => vstr(obj.get_or_insert_with(key(n(1)).as_str(), || val(n(2)))),
         "gmoi" => {
@@ -314,6 +365,7 @@ pub fn eval(line: &str) -> String {
             return format!("BADCASE {line}");
         }
         let nkeys: usize = t[1].parse().unwrap();
+        set_universe(t[1]);
         let mut obj = Object::new();
         let mut results = vec![];
         for op in &t[2..] {
@@ -376,6 +428,8 @@ fn op_instances(nkeys: usize, nvals: usize, len: usize) -> Vec<String> {
     ops.push("gmoi:1:5".into());
     ops.push("pushe:1:4".into());
     ops.push("ext:0=1,1=0,0=1".into());
+    ops.push("extpanic:1=2,0=0,1=1:2".into());
+    ops.push("canon".into());
     ops
 }
 
@@ -527,6 +581,50 @@ pub fn generate(args: &Args, out: &mut Out) {
         for cut in cuts.into_iter().step_by(if full { 1 } else { 3 }) {
             out.case_str(&format!("h {} {}", nk, ops[..cut].join(" ")));
         }
+    }
+    // 2c. the second key universe (names ordered differently by code points and by UTF-16 units, the
+    // empty name, prefixes of each other): pushes, then sort / canonicalize, edits, sort again
+    for _ in 0..(if full { 6000 } else { 500 }) {
+        let mut r = rng.fork();
+        let nk = 11usize;
+        let mut ops: Vec<String> = vec![];
+        for _ in 0..r.range(2, 9) {
+            ops.push(format!("{}:{}:{}", r.pick(&["push", "push", "pushf", "ins"]), r.below(nk), r.below(3)));
+            if ops.last().unwrap().starts_with("ins") {
+                ops.last_mut().unwrap().push_str(":*");
+            }
+        }
+        ops.push((*r.pick(&["sort", "sort", "canon"])).to_string());
+        out.case_str(&format!("h {} {}", nk, ops.join(" ")));
+        for _ in 0..r.range(0, 4) {
+            ops.push(match r.below(5) {
+                0 => format!("rm:{}:*", r.below(nk)),
+                1 => format!("rmat:{}", r.below(6)),
+                2 => format!("ins:{}:{}:*", r.below(nk), r.below(3)),
+                _ => format!("push:{}:{}", r.below(nk), r.below(3)),
+            });
+        }
+        ops.push((*r.pick(&["sort", "canon", "canon"])).to_string());
+        out.case_str(&format!("h {} {}", nk, ops.join(" ")));
+    }
+    // 2d. extensions whose source fails part-way (the caller recovers), between ordinary operations,
+    // also across growth of the table
+    for _ in 0..(if full { 4000 } else { 400 }) {
+        let mut r = rng.fork();
+        let nk = 40usize;
+        let mut ops: Vec<String> = (0..r.range(0, 30)).map(|_| format!("push:{}:{}", r.below(nk), r.below(100))).collect();
+        let m = r.range(1, 9);
+        let pairs: Vec<String> = (0..m).map(|_| format!("{}={}", r.below(nk), r.below(100))).collect();
+        ops.push(format!("extpanic:{}:{}", pairs.join(","), r.below(m + 2)));
+        for _ in 0..r.range(1, 4) {
+            ops.push(match r.below(4) {
+                0 => format!("rm:{}:*", r.below(nk)),
+                1 => format!("ins:{}:{}:*", r.below(nk), r.below(100)),
+                2 => format!("ext:{}", pairs.join(",")),
+                _ => format!("push:{}:{}", r.below(nk), r.below(100)),
+            });
+        }
+        out.case_str(&format!("h {} {}", nk, ops.join(" ")));
     }
     // 3. bulk construction
     for _ in 0..(if full { 20000 } else { 1500 }) {
